@@ -22,6 +22,7 @@ RULE = (
     'min_leads in 0..3. Oracle: reference classification computed from the generator tree (lists equal in '
     'membership and order, NAMES their concatenation, LAGS/LEADS by the replace / only-raise rule), reject-class '
     'scripts raise SymbolError/ParserError, and Model(span).solve() visits exactly the periods where every '
+    'Spans shorter than LAGS+LEADS+1 (down to one period): iter_periods() offers nothing and solve() solves nothing. '
     'reference read/write is inside the span. Non-trivial: a name occurs with >= 2 different offsets, or changes '
     'class between statements, or the program is in the reject class. Distinct = distinct case JSON.'
 )
